@@ -78,4 +78,22 @@ CHECKS["C07"] = {
     "text": "C07: decode(encode(x)) == x leaf by leaf at microsecond precision; key encodings parse back, are injective and the topic prefix filter is exact for all valid names; the consumer receives the key, payload and parameters that enqueue returned.",
     "note": "argument VALUES are 8 concrete representatives (JSON text is a stub), so 'all argument values' is not claimed; float round trip rests on lemma L-FP (error model, not bit-precise); isoformat round trip trusted; Redis/AMQP servers are fakes; cron, tz-aware datetimes, Config overrides outside the claim",
 }
+CHECKS["C08"] = {
+    "engine": "symx",
+    "technique": "solver-enumerated actor signatures (kinds, defaults, dependency flags; Python's validity rules as the precondition) and payload shapes, executed through the real converters and actor_run and compared with an inspect.Signature-based oracle",
+    "text": "C08: each parameter gets its entry or its declared default, extras only reach a catch-all, a missing required argument fails the execution, the empty payload runs all-default actors, Basic and Pydantic agree, the encoded return value decodes back.",
+    "note": "finite combinatorial space: the solver contributes enumeration only (no arithmetic); 1-2 (quick) / 1-3 (thorough) parameters; payload values are small ints",
+}
+CHECKS["C13"] = {
+    "engine": "symx+vloop",
+    "technique": "symbolic execution (z3) of retry chains through _Processor.process with symbolic failure and store-fault flags, symbolic result ttl and clock gaps; Worker.run() with a failing store and a symbolic broker latency",
+    "text": "C13: after each execution the bucket under the result id is that execution's outcome (flag, data/exception text and type, start <= finish, ttl) and Job.result returns it; nothing is written when disabled; a failing store leaves the disposition and the worker untouched.",
+    "note": "in-memory bucket broker; eager set_result/set_exception ordering is checked under C16",
+}
+CHECKS["C16"] = {
+    "engine": "symx",
+    "technique": "solver-enumerated scripts of message-API calls on Message / MessageDependency for every category with symbolic retry counters, compared with a handle automaton; eager-response scripts inside a real actor_run with the store position oracle",
+    "text": "C16: exactly one terminal action succeeds, refused calls raise and touch nothing, category and budget refusals, callbacks in registration order with the store at the latest set_* position, rest of the body not run.",
+    "note": "scripts of 3 (quick) / 4 (thorough) calls; recording in-memory broker",
+}
 NOT_APPLICABLE = {}
